@@ -296,6 +296,14 @@ def rule_k4(chk: Check, F, ix: Index):
                 f"tab stops are every {F.values.get('tabsize')} columns; CPython uses 8")
     f = ix.get("next_statement")
     loop = next((n for n in own_nodes(f.node) if isinstance(n, ast.While) and "state.pos < state.max" in norm_stmt(n.test)), None)
+    CH = "state.line[state.pos]"
+    if loop is None:
+        # the same walk written over the characters themselves: `for ch in state.line[...]` (the position advances in the body)
+        loop = next((n for n in own_nodes(f.node) if isinstance(n, ast.For) and isinstance(n.target, ast.Name) and not n.orelse
+                     and norm_stmt(n.iter) in ("state.line", "state.line[state.pos:]")
+                     and any(norm_stmt(s) == "state.pos += 1" for s in ast.walk(n) if isinstance(s, ast.stmt))), None)
+        if loop is not None:
+            CH = loop.target.id
     if loop is None:
         uses = sorted({n.func.attr for n in ast.walk(f.node) if isinstance(n, ast.Call) and isinstance(n.func, ast.Attribute)
                        and n.func.attr in ("expandtabs", "lstrip", "strip")})
@@ -311,7 +319,6 @@ def rule_k4(chk: Check, F, ix: Index):
     # and whether the character is consumed as indentation — the shape of the if/elif chain is irrelevant
     from ..pyflow import stmt_paths
     import copy
-    CH = "state.line[state.pos]"
 
     def subst(text: str) -> ast.expr:
         e = ast.parse(text.replace(CH, "_ch"), mode="eval").body
